@@ -228,7 +228,7 @@ func sizesAll(t *testing.T, run *vh.Run, r *vh.Rand, env vh.Env) {
 				c.RecsS = []Sil{sizedSil(r, size, shape)}
 			}
 			// the model evaluates the small ones and one on each side of the reader-buffer boundaries
-			coq := size <= 1000 || size == 4095 || size == 4097 || size == 8193 || (thorough && size == 65537)
+			coq := size <= 1000 || size == 4095 || size == 4097 || size == 8193 // larger records: Go-side oracle only
 			sizeCase(t, run, &c, coq)
 		}
 	}
